@@ -114,7 +114,7 @@ pub open spec fn raw_at(t: Seq<char>, p0: int) -> Raw {
 SPEC = r"""
     requires
         old(self).scanner.wf(),
-        skip_end(old(self).scanner.text(), old(self).scanner.pos()) >= old(self).scanner.pos(),
+        skip_end(old(self).scanner.text(), old(self).scanner.pos()) >= old(self).scanner.pos(),   // (a fact about the spec function: lemma_skip_end_bounds in unit V-lexskip)
     ensures
         final(self).scanner.text() == old(self).scanner.text(),
         r is None <==> raw_at(old(self).scanner.text(), old(self).scanner.pos()) is End, // [C03:the_token_stream_ends_only_at_the_end_of_the_input]
